@@ -294,13 +294,27 @@ def oracle_read(o, key, expected, where, out, strict_absent=True):
         out.append(("open-failed", "%s: %s %s" % (where, o["t"], o.get("msg", ""))))
 
 
+def oracle_shape(op, o, where, out):
+    """a concrete reader type standing at offset k: Create read it from there to its end, as io.Copy would"""
+    if not op.get("shape") or o.get("pos") is None:
+        return
+    total = len(seg_bytes(op.get("b")))
+    if o["t"] == "key" and o["pos"] != total:
+        out.append(("reader-not-left-where-a-sequential-read-to-the-end-leaves-it",
+                    "%s: a %s reader of %d bytes handed in at offset %d stands at %d after Create"
+                    % (where, op["shape"], total, op.get("k", 0), o["pos"])))
+
+
 def oracle_fs_hist(c):
     out = []
     expected = {}
     for i, (op, o) in enumerate(zip(c["ops"], c["obs"])):
         where = "op %d (%s)" % (i, op["op"])
+        if op.get("shape"):
+            where += " [%s reader handed in at offset %d of its %d bytes]" % (op["shape"], op.get("k", 0), len(seg_bytes(op.get("b"))))
         if op["op"] == "create":
             oracle_create(o, op.get("script"), op.get("fault"), expected, where, out)
+            oracle_shape(op, o, where, out)
         elif op["op"] == "open":
             oracle_read(o, op.get("key", ""), expected, where, out)
         elif op["op"] == "has":
@@ -325,6 +339,8 @@ def oracle_mem_hist(c):
     handles = []
     for i, (op, o) in enumerate(zip(c["ops"], c["obs"])):
         where = "op %d (%s)" % (i, op["op"])
+        if op.get("shape"):
+            where += " [%s reader handed in at offset %d of its %d bytes]" % (op["shape"], op.get("k", 0), len(seg_bytes(op.get("b"))))
         k = op.get("key", "")
         name = op["op"]
         if name == "alloc":
@@ -341,6 +357,7 @@ def oracle_mem_hist(c):
                     expected.setdefault(o["key"], content)
         elif name in ("create", "pcreate"):
             oracle_create(o, op.get("script"), None, expected, where, out)
+            oracle_shape(op, o, where, out)
         elif name == "ucreate":
             shape = op.get("h", 0)
             content, st_, e_ = script_delivered(op.get("script"))
@@ -700,7 +717,7 @@ def case_key(c):
         return (st, c.get("kind"), json.dumps(c.get("scripts")))
     if st == "sched":
         return (st, json.dumps(c.get("scripts")), [s["tid"] for s in c["steps"]])
-    return (st, json.dumps([(o["op"], o.get("script"), o.get("key"), o.get("b"), o.get("h"), o.get("fault"))
+    return (st, json.dumps([(o["op"], o.get("script"), o.get("key"), o.get("b"), o.get("h"), o.get("fault"), o.get("shape"), o.get("k"))
                             for o in c.get("ops", [])]))
 
 
